@@ -350,15 +350,30 @@ func init() {
 	reg("(*sync.WaitGroup).Add", func(x *Exec, fr *frame, args []Value) Value { x.wgAdd(fr, args[0], args[1].(*Term).Sval()); return nil })
 	reg("(*sync.WaitGroup).Done", func(x *Exec, fr *frame, args []Value) Value { x.wgAdd(fr, args[0], -1); return nil })
 	reg("(*sync.WaitGroup).Wait", func(x *Exec, fr *frame, args []Value) Value { x.wgWait(fr, args[0]); return nil })
+	// sync.Pool: Get hands back the most recently Put item if there is one (the case in which reuse
+	// bugs show; a pool may always do so), otherwise New() or nil
 	reg("(*sync.Pool).Get", func(x *Exec, fr *frame, args []Value) Value {
-		st := (*args[0].(*Value)).(Struct)
+		p := args[0].(*Value)
+		if items := x.pools[p]; len(items) > 0 {
+			it := items[len(items)-1]
+			x.pools[p] = items[:len(items)-1]
+			return it
+		}
+		st := (*p).(Struct)
 		newf := st[len(st)-1]
 		if f, ok := newf.(*ssa.Function); ok && f == nil {
 			return Iface{}
 		}
 		return x.call(fr, newf, nil)
 	})
-	reg("(*sync.Pool).Put", nop)
+	reg("(*sync.Pool).Put", func(x *Exec, fr *frame, args []Value) Value {
+		if x.pools == nil {
+			x.pools = map[*Value][]Value{}
+		}
+		p := args[0].(*Value)
+		x.pools[p] = append(x.pools[p], args[1])
+		return nil
+	})
 
 	// ---- math
 	reg("math.Float64bits", func(x *Exec, fr *frame, args []Value) Value { return mkConst(64, math.Float64bits(args[0].(float64))) })
